@@ -12,6 +12,7 @@ THEOREMS = [
     "C01_batch_eq_single",
     "C01_shift",
     "C01_tail_bounds",
+    "C01_tied_components_both_count",
 ]
 CORR_OPS = ["gmm_ll:lwl", "gmm_ll:ll", "gmm_ll:single", "gmm_ll:dask", "gmm_ll:acc_stats"]
 RULE = ("machines with C components x D features (mixed feature scales 1e-3/1/1e3, some variances below their floor), "
